@@ -201,23 +201,50 @@ Proof. exact AgreeMiscSum.unresolved_spec. Qed.
 Print Assumptions unresolved_spec.
 
 (** "stats counts equal the numbers of headings with first/last dates ...": on the callback folds, for
-    a file that is readable to the end and has no parse error. *)
+    a file that is readable to the end and has no parse error.  The first record is the FIRST heading
+    that is a date, whatever date it is (no exception for 0001-01-01: the walk keeps an [option time],
+    [None] = no dated heading yet); the zero time is shown only when no heading is a date.  The last
+    record is the time of the LAST heading, the zero time when that heading is not a date. *)
 Theorem stats_spec : forall (NM : Num) toks data,
   snd (scan data NoFault) = ScanEOF -> no_parse_error NM (events NM data) ->
   let ns := nodes_of NM (events NM data) in
   let ds := heading_dates NM toks ns in
-  parse_opened NM (stats_log_cb NM toks) (OData data NoFault) (O, zero_time, zero_time)
-    = ((length (events NM data), stats_first ds, stats_last ds), None)
+  parse_opened NM (stats_log_cb NM toks) (OData data NoFault) (O, None, zero_time)
+    = ((length (events NM data), stats_first_opt ds, stats_last ds), None)
   /\ parse_opened NM (stats_db_cb NM) (OData data NoFault) O = (length (events NM data), None)
   /\ map ENode ns = events NM data
-  /\ match find (fun o => match o with Some c => negb (is_zero_time (time_of_civil c)) | None => false end) ds with
-     | Some (Some c) => stats_first ds = time_of_civil c
-     | _ => stats_first ds = zero_time
-     end
-  /\ (forall c, In (Some c) ds -> (is_zero_time (time_of_civil c) = true <-> c = (1, 1, 1)%Z))
+  /\ (forall pre c post, ds = pre ++ Some c :: post -> (forall o, In o pre -> o = None) ->
+        stats_first_opt ds = Some (time_of_civil c) /\ stats_first ds = time_of_civil c)
+  /\ ((forall o, In o ds -> o = None) -> stats_first_opt ds = None /\ stats_first ds = zero_time)
+  /\ stats_first ds = match find (fun o => match o with Some _ => true | None => false end) ds with
+                      | Some (Some c) => time_of_civil c
+                      | _ => zero_time
+                      end
   /\ stats_last ds = match last ds None with Some c => time_of_civil c | None => zero_time end.
 Proof. exact AgreeMiscStats.stats_spec. Qed.
 Print Assumptions stats_spec.
+
+(** a log whose headings are 0001/01/01, 0001/01/03, 0001/01/05 reports 0001/01/01 as its first record
+    (before the repair of the first-record mark it reported the second heading, 0001/01/03) *)
+Theorem stats_first_record_zero_date :
+  parse_opened ZNum (stats_log_cb ZNum ex_toks) (OData z_log NoFault) (O, None, zero_time)
+  = ((3%nat, Some (time_of_civil (1, 1, 1)%Z), time_of_civil (1, 1, 5)%Z), None)
+  /\ heading_dates ZNum ex_toks (nodes_of ZNum (events ZNum z_log))
+     = [Some (1, 1, 1)%Z; Some (1, 1, 3)%Z; Some (1, 1, 5)%Z]
+  /\ stats_first (heading_dates ZNum ex_toks (nodes_of ZNum (events ZNum z_log))) = time_of_civil (1, 1, 1)%Z
+  /\ run ZNum z_world z_inv
+     = {| out_stdout :=
+            b "  Database file:      " ++ ex_nl ++
+            b "  Database records:   0" ++ ex_nl ++
+            ex_nl ++
+            b "  Log file:           log.yaml" ++ ex_nl ++
+            b "  Log records:        3" ++ ex_nl ++
+            b "  Today:              0001/01/10" ++ ex_nl ++
+            b "  First record:       0001/01/01 (9 days ago)" ++ ex_nl ++
+            b "  Last record:        0001/01/05 (5 days ago)" ++ ex_nl;
+          out_status := Ok |}.
+Proof. exact AgreeMiscStats.stats_first_record_zero_date. Qed.
+Print Assumptions stats_first_record_zero_date.
 
 (** "... computed from --today": [now] is the parsed [--today] when given *)
 Theorem stats_today : forall (w : world) (i : invocation) (op : options),
@@ -230,14 +257,40 @@ Theorem stats_today : forall (w : world) (i : invocation) (op : options),
 Proof. exact load_now. Qed.
 Print Assumptions stats_today.
 
-(** "... and day distances": the difference of the day numbers, within Duration's range *)
+(** "... and day distances": between two midnights EXACTLY the difference of the day numbers, for every
+    pair of civil dates (no range, no saturation) *)
 Theorem stats_days_ago : forall a b : Z * Z * Z,
   let da := let '(y, m, d) := a in days_from_civil y m d in
   let db := let '(y, m, d) := b in days_from_civil y m d in
-  (-106751 <= da - db <= 106751)%Z ->
   days_between (time_of_civil a) (time_of_civil b) = (da - db)%Z.
 Proof. exact days_between_civil. Qed.
 Print Assumptions stats_days_ago.
+
+(** [now] on a whole second [s] since the epoch (any zone offset), the record a midnight: the seconds
+    between them divided by 86400, rounded towards zero *)
+Theorem stats_days_ago_seconds : forall (now : time) (b : Z * Z * Z) (s : Z),
+  let db := let '(y, m, d) := b in days_from_civil y m d in
+  inst now = (s * ns_per_sec)%Z ->
+  days_between now (time_of_civil b) = Z.quot (s - db * 86400) 86400.
+Proof. exact days_between_seconds. Qed.
+Print Assumptions stats_days_ago_seconds.
+
+(** the same with [now] split into its day number [dn] and the second [r] of that day *)
+Theorem stats_days_ago_day_part : forall (now : time) (b : Z * Z * Z) (dn r : Z),
+  let db := let '(y, m, d) := b in days_from_civil y m d in
+  inst now = ((dn * 86400 + r) * ns_per_sec)%Z -> (0 <= r < 86400)%Z ->
+  days_between now (time_of_civil b)
+  = (if (db <=? dn) || (r =? 0) then dn - db else dn - db + 1)%Z.
+Proof. exact days_between_day_part. Qed.
+Print Assumptions stats_days_ago_day_part.
+
+(** distances beyond the range of a [time.Duration] (about 292 years), which used to print as
+    106751 and -106751 *)
+Theorem stats_days_far :
+  days_between (time_of_civil (2021, 1, 2)%Z) (time_of_civil (1700, 1, 1)%Z) = 117244%Z
+  /\ days_between (time_of_civil (2021, 1, 2)%Z) (time_of_civil (2400, 1, 1)%Z) = (-138425)%Z.
+Proof. exact AgreeMiscStats.stats_days_far. Qed.
+Print Assumptions stats_days_far.
 
 (** lifted to the lines [stats] writes *)
 Theorem stats_lines_printed : forall (NM : Num) (w : world) (op : options) ldata ddata,
